@@ -157,6 +157,22 @@ theorem C11_assign_sets_entry (cfg : Cfg) (key : Bytes) (sep : Sep) (lit : Lit) 
   rw [slot_modify_same _ _ hi1, slot_modify_same _ _ hi]
   simp [setValue, getValue, hlog]
 
+/-- The route `OnlyPatternKeys` excludes, characterised: a recording option addressed by a plain name or
+synonym (a list option; or a wildcard option through a synonym *without* `*`, or through the literal text of a
+synonym pattern such as `obj_*_priority`, which `FindOption` compares case-insensitively before trying
+`wc_match`) records the value under the key body left by the LAST wildcard match (`wc_body_last_`; empty if
+there was none).  For a list option that is the intended behaviour (the body is never set); for a wildcard
+option it means the assignment lands on whatever entry was addressed last — the model mirrors the code here
+(observation in design_notes/C11.md, with a possible two-line fix). -/
+theorem C11_plain_key_records_under_last_body (cfg : Cfg) (key : Bytes) (sep : Sep) (lit : Lit) (st : St)
+    (d : OptDecl) (hl : lookup cfg.table key = some (d, none)) (hlog : d.logged = true)
+    (hi : d.id < st.slots.length) :
+    ((applyItem cfg (.assign key sep lit) st).slot d.id).log =
+      ((st.slot d.id).wcBody, lit.val) :: (st.slot d.id).log := by
+  simp only [applyItem, findOption_of_lookup hl, slot_doEcho, noteMatch]
+  rw [slot_modify_same _ _ hi]
+  simp [setValue, hlog]
+
 /-- an integer literal in `int` range denotes its mathematical value, e.g. the usual decimal
 rendering of `v` -/
 theorem C11_int_literal_value (v : Int) : (intLitOf v).WF ∧ (intLitOf v).value = v :=
